@@ -553,6 +553,12 @@ fn gen_source(rng: &mut Rng, words: &[String]) -> String {
     if rng.chance(1, 400) {
         return (*rng.pick(&[
             "@@pad:70000@@zzunknownword",
+            // long lines of multi-byte characters, in the three byte phases
+            "@@rep:3000:\u{e9} @@zzunknownword",
+            "x@@rep:3000:\u{e9} @@zzunknownword",
+            "xy@@rep:3000:\u{e9} @@zzunknownword",
+            "@@rep:2500:\u{65e5}\u{672c} @@1 0 /",
+            "\"@@rep:3000:\u{e9}@@\" zzunknownword",
             "@@rep:40000:1 @@nosuchword",
             "@@pad:65535@@1 0 /",
             "\"@@pad:66000@@\" zzunknownword",
